@@ -1,5 +1,6 @@
 """C06: truncated files are reported as insufficient data, never as success."""
 from .. import common as C
+from .. import gen as G
 from .. import streams as S
 from .. import dstream as D
 
@@ -29,6 +30,25 @@ def run(ctx):
     for c, a in zip(cat_cases, C.harness([S.compress_line(c) for c in cat_cases], timeout=600)):
         if a.startswith("ok bytes="):
             files.append({"dt": c["dt"], "hex": a.split(" ")[1][len("bytes="):], "chunks": c["chunks"], "order": 0, "desc": "%s/categorical" % c["dt"]})
+    # single-prefix chunks (a constant chunk, or an arithmetic progression under delta encoding: one prefix with the
+    # EMPTY code, i.e. zero-width reads in the prefix-table parser) at every byte alignment: alone for the 16-bit types,
+    # and as a later chunk behind a first chunk of 1..14 numbers for every type; every truncation is swept
+    one_cases = []
+    for _ in range(30 if ctx.quick else 300):
+        dt = rng.choice(["i16", "u16", "i16", "u16", "i32", "u64", "f32", "micros"])
+        od = rng.choice([1, 1, 2])
+        n = rng.choice([3, 5, 40, 600])
+        xs = [G.from_signed_val(dt, 7 + 3 * i) for i in range(n)]
+        one_cases.append({"dt": dt, "level": rng.choice([0, 8]), "order": od, "gcds": rng.below(2), "chunks": [xs], "kinds": ["one-prefix"], "drain": 0})
+    for first in range(1, 15):
+        for _ in range(2 if ctx.quick else 8):
+            dt = rng.choice([d for d in S.ALL_DT if d != "bool"])
+            a = G.gen_seq(rng, dt, first, rng.choice(["uniform", "small", "cluster"]))[0]
+            b = [G.from_signed_val(dt, 7)] * rng.choice([2, 5])
+            one_cases.append({"dt": dt, "level": rng.choice([0, 8]), "order": 0, "gcds": rng.below(2), "chunks": [a, b], "kinds": ["one-prefix-second"], "drain": 0})
+    for c, a in zip(one_cases, C.harness([S.compress_line(c) for c in one_cases], timeout=600)):
+        if a.startswith("ok bytes="):
+            files.append({"dt": c["dt"], "hex": a.split(" ")[1][len("bytes="):], "chunks": c["chunks"], "order": c["order"], "desc": "%s/%s" % (c["dt"], c["kinds"][0])})
     # many more categorical files, truncated only where a chunk body ends (the last bytes of a one-chunk file): a body
     # that ends exactly on a 64-bit word boundary with a short code as its last bits is rare (about 1 file in 60)
     tail_cases = []
